@@ -437,6 +437,19 @@ def r5(cx, run):
                     else:
                         run.check(not sel, "R6", key + " end-time " + q, "maximum over every sample of `%s` (its presentation times are not monotone in queue order: writer enforces %s only)" % (q, sorted(mono[q])),
                                   "the end time of `%s` is taken from a single selected sample (%s), but only %s is monotone in queue order: with reordered (B-frame) video the sample presented last is not the one queued last" % (q, ", ".join(sel), sorted(mono[q])), mir.loc_of(ct))
+        # R6: the two tracks' end times are combined by maximum (the file ends when its last track ends)
+        for c in sorted(callees):
+            for f in sorted(g.reach([c])):
+                fb = u.bodies[f]
+                for cbb, ct, cname, cinfo in mir.calls(fb):
+                    last_ = mir.norm(cname or "").split("::")[-1]
+                    if last_ not in ("max", "min", "clamp") or len(ct["args"]) < 2:
+                        continue
+                    args = [sym.expr(fb, a) for a in ct["args"]]
+                    per = [{q for q in (vq, aq) for y in sym.walk(a) if isinstance(y, tuple) and len(y) > 1 and y[0] in ("load", "refplace") and y[1] == "arg1." + q} for a in args]
+                    if {vq} in per and {aq} in per:
+                        run.check(last_ == "max", "R6", key + " tracks combined by maximum", "end = max(video end, audio end)",
+                                  "the end times of the two tracks are combined with `%s`: the statistic is not the largest presentation end over all accepted samples" % last_, mir.loc_of(ct))
         if len(pairing) == 2 and callees:
             run.check(npair >= 2, "R5", key + " end-time pairing sites", "%d queue/last-delta pairings found in the duration function" % npair,
                       "could not find where the duration function combines each queue with a last-delta field (found %d)" % npair, mir.loc_of(st))
